@@ -679,10 +679,15 @@ func replayCoord(w *writer, beh []step, rng *rand.Rand, clientNs string) *mismat
 			if !waitFor(func() bool { mu.Lock(); defer mu.Unlock(); return reads > readsBefore }, 10*time.Second) {
 				return &mismatch{Behaviour: beh, Step: i, What: "coordinator did not read the new configuration", Mode: "coord"}
 			}
-			// quiescence: no shard is being deleted any more and the status agrees with the model's
-			// status after all deletions; otherwise record what is there
+			// quiescence: no shard is being deleted any more and the status agrees with the model's status
+			// after the deletions that follow this change (behaviours for this mode come from the EagerDelete
+			// variant of the model: deletions finish before the next change); otherwise record what is there
+			last := s.Exp
+			for j := i + 1; j < len(beh) && beh[j].A != "Config"; j++ {
+				last = beh[j].Exp
+			}
 			want := map[string]map[int64]bool{}
-			for n, m := range expProjection(s.Exp) {
+			for n, m := range expProjection(last) {
 				live := map[int64]bool{}
 				for id, del := range m {
 					if !del {
@@ -845,6 +850,10 @@ func main() {
 			}
 			if mm != nil && len(result.Mismatches) < 25 {
 				result.Mismatches = append(result.Mismatches, *mm)
+			}
+			if os.Args[1] == "coord" && len(result.Mismatches) >= 5 {
+				// every deviation costs a quiescence timeout: a broken tree must not stall the check
+				break
 			}
 		}
 	default:
